@@ -2,7 +2,26 @@
 //!   fstv-harness <prop> gen  <outdir> <tier> <seed>   -> cases.txt impl.out stats.json
 //!   fstv-harness <prop> exec <cases-file> <out-file>  -> runs the given cases only (replay)
 mod common;
+mod c01;
+mod c02;
+mod c03;
+mod c04;
+mod c05;
+mod c06;
+mod c07;
+mod c08;
+mod c09;
+mod c10;
+mod c11;
+mod c12;
+mod c13;
+mod c14;
+mod c15;
+mod c16;
+mod c17;
 mod c18;
+mod c19;
+mod c20;
 mod dynaut;
 
 use common::*;
@@ -13,7 +32,26 @@ use std::sync::Arc;
 
 fn prop_for(name: &str) -> Box<dyn Prop> {
     match name {
+        "C01" => Box::new(c01::P),
+        "C02" => Box::new(c02::P),
+        "C03" => Box::new(c03::P),
+        "C04" => Box::new(c04::P),
+        "C05" => Box::new(c05::P),
+        "C06" => Box::new(c06::P),
+        "C07" => Box::new(c07::P),
+        "C08" => Box::new(c08::P),
+        "C09" => Box::new(c09::P),
+        "C10" => Box::new(c10::P),
+        "C11" => Box::new(c11::P),
+        "C12" => Box::new(c12::P),
+        "C13" => Box::new(c13::P),
+        "C14" => Box::new(c14::P),
+        "C15" => Box::new(c15::P),
+        "C16" => Box::new(c16::P),
+        "C17" => Box::new(c17::P),
         "C18" => Box::new(c18::P),
+        "C19" => Box::new(c19::P),
+        "C20" => Box::new(c20::P),
         _ => {
             eprintln!("unknown property {}", name);
             std::process::exit(2)
